@@ -164,14 +164,21 @@ void consumer(Buf &buf, const TaskProg &t)
       case OP_PEEK: {
         ev(E_PEEK_BEGIN);
         auto range = buf.Peek();
-        range.ForEach([&](const AtomicUniquePtr<Elem> &ptr) {
+        int seen   = 0;
+        bool all   = range.ForEach([&](const AtomicUniquePtr<Elem> &ptr) {
           Elem *e = ptr.Get();
           if (!e)
             vsim::report("C11.peek_null", "Peek() exposed an empty slot");
           else
             ev(E_PEEK_ELEM, e->p, e->k);
-          return true;
+          ++seen;
+          return !(op.a == 1 && seen == 1);  // variant: the callback stops after one element
         });
+        if (op.a == 1 && seen >= 1 && all)
+          vsim::report("C11.foreach_ignores_stop",
+                       "ForEach returned true although the callback asked to stop");
+        if (op.a == 1 && seen > 1)
+          vsim::report("C11.foreach_ignores_stop", "ForEach went on after the callback returned false");
         ev(E_PEEK_END);
         break;
       }
@@ -289,7 +296,10 @@ void generate(const std::string &prop, Rng &wl, Rng &fl, Case &c)
       else if (r < 0.75)
         op.kind = OP_CLEAR;
       else if (r < 0.88)
+      {
         op.kind = OP_PEEK;
+        op.a    = wl.chance(0.3);
+      }
       else
         op.kind = OP_SIZE;
       cons.ops.push_back(op);
@@ -598,7 +608,7 @@ std::string describe_op(const Case &, int role, const Op &op)
     case OP_CLEAR:
       return "Clear()";
     case OP_PEEK:
-      return "Peek()";
+      return op.a ? "Peek() stopping after one element" : "Peek()";
     case OP_SIZE:
       return "size()/empty()";
     case OP_LOCK:
